@@ -226,6 +226,11 @@ type mapping struct{ base, n uintptr }
 
 var maps []mapping
 
+var nHangs int
+
+// widely hanging code: stop generating cases so that the run stays bounded
+func tooManyHangs() bool { return nHangs >= 8 }
+
 func runManaged(budget int, fn func()) (status string, steps int) {
 	s := vsched.New(false)
 	defer vsched.Stop()
@@ -233,6 +238,7 @@ func runManaged(budget int, fn func()) (status string, steps int) {
 	for !s.Done(tid) {
 		if steps >= budget {
 			s.Kill(tid)
+			nHangs++
 			return "hang", steps
 		}
 		s.Step(tid)
@@ -267,6 +273,9 @@ func buildNames() {
 }
 
 func restCase() {
+	if tooManyHangs() {
+		return
+	}
 	dir, err := os.MkdirTemp(root, "r")
 	if err != nil {
 		panic(err)
@@ -528,6 +537,9 @@ var modeStates = []struct {
 func planCase(variant string, steps []planStep) { planCaseMode(variant, 0, steps) }
 
 func planCaseMode(variant string, modeIdx int, steps []planStep) {
+	if tooManyHangs() {
+		return
+	}
 	dir, err := os.MkdirTemp(root, "p")
 	if err != nil {
 		panic(err)
@@ -670,6 +682,150 @@ func planCaseMode(variant string, modeIdx int, steps []planStep) {
 	}
 }
 
+// ---- (c) a rotation that FAILS while an Add is under way ----
+// One goroutine runs Counter.Add on a mapped file, another runs rotate1 in a
+// situation in which it fails (telemetry switched off, weekends unreadable, a
+// new week whose file cannot be opened / mapped / whose directory cannot be
+// made) and parks the file (current = nil).  The failing rotation is run to
+// completion after the first k scheduler steps of the Add, for every k: every
+// point of the Add at which the mapping can disappear is covered.
+var failKinds = []string{"mode-off", "weekends-read", "mkdir", "open", "mmap", "short-header"}
+
+func concFailCase(k int, fkind string, hasPtr bool) {
+	if tooManyHangs() {
+		return
+	}
+	dir, err := os.MkdirTemp(root, "f")
+	if err != nil {
+		panic(err)
+	}
+	defer os.RemoveAll(dir)
+	telemetry.Default = telemetry.NewDir(dir)
+	now := time.Date(2024, 1, 3, 10, 0, 0, 0, time.UTC)
+	counter.CounterTime = func() time.Time { return now }
+	planSeq++
+	mrand.Seed(int64(Seed())*1000003 + planSeq)
+	maps = nil
+	vatomic.ResetClosed()
+	vosc.Reset(nil)
+	counter.VerifMunmapMark(true)
+	defer counter.VerifMunmapMark(false)
+
+	f := counter.VerifNewFile()
+	f.Rotate1()
+	c := f.NewCounter("a")
+	total := uint64(0)
+	if hasPtr {
+		c.Add(1)
+		total++
+	}
+	plan := map[int]int{}
+	switch fkind {
+	case "mode-off":
+		os.MkdirAll(filepath.Dir(telemetry.Default.ModeFile()), 0777)
+		os.WriteFile(telemetry.Default.ModeFile(), []byte("off"), 0666)
+	case "weekends-read":
+		plan[1] = vosc.KEIO // the second ReadFile of weekEnd
+	default:
+		now = now.Add(8 * 24 * time.Hour) // a new week: rotate1 opens a new file
+		switch fkind {
+		case "mkdir":
+			plan[2] = vosc.KEACCES
+		case "open":
+			plan[3] = vosc.KEIO
+		case "mmap":
+			plan[8] = vosc.KENOSPC
+		case "short-header":
+			plan[5] = vosc.KShort
+		}
+	}
+	vosc.Reset(plan)
+	s := vsched.New(false)
+	status := "ok"
+	t0 := s.Go(func() { c.Add(5) })
+	t1 := s.Go(func() { f.Rotate1() })
+	total += 5
+	steps := 0
+	run := func(tid int) bool { // one step; false when it cannot run
+		if s.Done(tid) {
+			return false
+		}
+		s.Step(tid)
+		steps++
+		return true
+	}
+	for i := 0; i < k && !s.Done(t0); i++ {
+		run(t0)
+	}
+	budget := 20000
+	for !s.Done(t1) && budget > 0 {
+		budget--
+		run(t1)
+		if !s.Done(t1) && s.Last(t1).Blocked { // waits for a lock the adder holds
+			if !run(t0) {
+				break
+			}
+		}
+	}
+	for !s.Done(t0) && budget > 0 {
+		budget--
+		run(t0)
+	}
+	if budget == 0 {
+		status = "hang"
+	}
+	for _, tid := range []int{t0, t1} {
+		if p := s.Last(tid).Panic; p != "" {
+			status = "panic"
+			if debug {
+				fmt.Fprintln(os.Stderr, p)
+			}
+		}
+	}
+	vsched.Stop()
+	calls := vosc.Calls
+	vosc.Reset(nil)
+	extra := uint64(0)
+	persisted := uint64(0)
+	parked := false
+	if status == "ok" {
+		extra = counter.VerifExtra(c)
+		parked, _ = f.VerifParked()
+		files, _ := filepath.Glob(filepath.Join(telemetry.Default.LocalDir(), "*.count"))
+		for _, fn := range files {
+			d, err := os.ReadFile(fn)
+			if err != nil || len(d) < 64 {
+				continue
+			}
+			H := le32(d, 28)
+			for _, r := range linked(d, H) {
+				if r.name == "a" {
+					persisted += r.val
+				}
+			}
+		}
+	}
+	out.Case(true, "cfail", fkind, I(int64(k)), B(hasPtr), status, B(parked), U(total), U(extra), U(persisted), I(int64(calls)), I(int64(steps)))
+	out.Note("cfail-" + fkind)
+}
+
+func concFailCases(thorough bool) int {
+	n := 0
+	maxK := 24
+	if thorough {
+		maxK = 60
+	}
+	for _, fk := range failKinds {
+		for _, hp := range []bool{false, true} {
+			for k := 0; k <= maxK; k++ {
+				concFailCase(k, fk, hp)
+				n++
+			}
+		}
+	}
+	return n
+}
+
 var planSeq int64
 
 var variants = []string{"fresh", "weekends-ok", "weekends-empty", "weekends-garbage", "existing", "existing-short", "existing-badhdr"}
@@ -739,6 +895,7 @@ func main() {
 	buildNames()
 	thorough := os.Getenv("VERIF_TIER") == "thorough"
 	np := planCases(thorough, n/3)
+	np += concFailCases(thorough)
 	for i := np; i < n; i++ {
 		restCase()
 	}
